@@ -33,6 +33,7 @@ impl World {
     pub fn new() -> Self {
         let mut names = Names::default();
         names.reg_coin(CoinID::zero_zero());
+        names.reg_cov(Address::coin_destroy());
         for (a, b) in [(Denom::Mel, Denom::Sym), (Denom::Mel, Denom::Erg), (Denom::Erg, Denom::Sym)] {
             names.reg_poolkey(PoolKey::new(a, b));
         }
